@@ -58,6 +58,13 @@ func affineIn(info *types.Info, e ast.Expr, n types.Object) (int64, int64, bool)
 				return a1 + a2, b1 + b2, true
 			case token.SUB:
 				return a1 - a2, b1 - b2, true
+			case token.MUL:
+				if a1 == 0 {
+					return a2 * b1, b2 * b1, true
+				}
+				if a2 == 0 {
+					return a1 * b2, b1 * b2, true
+				}
 			}
 		}
 	}
